@@ -50,7 +50,10 @@ Definition tid := Z.                  (* threading.current_thread().ident *)
 (* what listeners read from event.suite / event.test: node.parent_suite's hierarchy, the node's own metadata, its rank.
    The hierarchy of the node itself is node_path.
    n_rank is the key the report sorts the node by among its siblings:
-     - suite node: suite.rank;
+     - suite node: since the repair F24 ReportWriter sorts sibling suites by (suite.rank, declared position: among the parent's
+       sub-suites, or given by the runner to a top-level suite); for LIVE streams n_rank is that pair as the order-isomorphic
+       integer  suite.rank * rank_base + position;  in the replay of a loaded report (ranks 0, sequential stream) the arrival
+       order of sibling suites is their position order, and n_rank = suite.rank = 0 gives the same list by the stable sort;
      - test node: since the fix "the report must keep the declaration order of tests sharing the same rank" ReportWriter sets
        result.rank = (test.rank, position of the test in test.parent_suite.get_tests()) and Python compares these pairs
        lexicographically; n_rank is that pair as the order-isomorphic integer  test.rank * rank_base + position
